@@ -4860,6 +4860,8 @@ class ParseCtx:
             return ProgramData.imbue(self._parse_assign_stmt(stmt, stmt.data == "append_stmt"), DTAG.SOURCE_LINE, stmt.meta.line, DTAG.SOURCE_COLUMN, stmt.meta.column)
         elif stmt.data == "case_stmt":
             # Find all of the matches
+            if all(all(pred.data == "else_predicate" for pred in clause.children if pred.data in ("else_predicate", "expr_predicate")) for clause in stmt.children):
+                raise IllegalParseTree("A case statement needs at least one clause that matches input", stmt)
             return ProgramData.imbue(ProgramData.imbue(CaseNode({k: v for k, v in (self._parse_case_clause(x) for x in stmt.children)}), 
                 DTAG.SOURCE_LINE, stmt.meta.line),
                 DTAG.SOURCE_COLUMN, stmt.meta.column
